@@ -307,7 +307,7 @@ def payload(name, o):
         return np.zeros((0,), a.dtype)
     if name == "other-values":
         if a.dtype.kind in "fiu":
-            return (a + 1).astype(a.dtype)
+            return np.asarray(a + 1).astype(a.dtype).reshape(a.shape)
         if a.dtype.kind == "b":
             return ~a
         return a.copy()
@@ -698,6 +698,13 @@ def templates(op, spox):
 
         return [unsafe_reshape(a[0], (6,))]
 
+    def linreg(a, p):
+        import spox.opset.ai.onnx.ml.v3 as ml
+
+        # reported [N, features], computed [N, targets] (known defect F6): the evaluator's natural result fails check
+        return [ml.linear_regressor(a[0], coefficients=[1.0, 0.5, -1.0], intercepts=[0.25], targets=1)]
+
+    t("linreg", (("F23",),), ("LR",), linreg)
     t("inline_3", (("F6",), ("F6",)), ("F6", "F6"), inline3)
     t("unsafe_cast_F6", (("F6",),), ("FV",), unsafe_cast_f6)
     t("unsafe_reshape_F6", (("F6",),), ("F6",), unsafe_reshape_f6)
